@@ -18,7 +18,7 @@ namespace KM.Redirect
 
 /-! ### characters -/
 
-def isCtl (c : Char) : Bool := c.val < 0x20 || c.val == 0x7f
+def isCtl (c : Char) : Bool := c.toNat < 0x20 || c.toNat == 0x7f
 def isAlpha (c : Char) : Bool := ('a' ≤ c && c ≤ 'z') || ('A' ≤ c && c ≤ 'Z')
 def isDigit (c : Char) : Bool := '0' ≤ c && c ≤ '9'
 def isHex (c : Char) : Bool := isDigit c || ('a' ≤ c && c ≤ 'f') || ('A' ≤ c && c ≤ 'F')
@@ -197,7 +197,7 @@ def shouldEscapeHost (c : Char) : Bool :=
     c == '"' || c == '-' || c == '_' || c == '.' || c == '~')
 
 /-- a byte that `unescape(·, encodeHost)` lets through unescaped -/
-def hostCharOK (c : Char) : Bool := c.val ≥ 0x80 || !shouldEscapeHost c
+def hostCharOK (c : Char) : Bool := c.toNat ≥ 0x80 || !shouldEscapeHost c
 
 /-- first pass of `unescape(s, encodeHost)`: only non-ASCII bytes (and `%25`) may be escaped,
 every other ASCII byte must be a legal host byte -/
@@ -341,7 +341,7 @@ inductive BHost
   | ipv6 (inner : List Char)    -- `[inner]`: lower-cased text handed to the IPv6 parser
 deriving DecidableEq, Repr
 
-def c0space (c : Char) : Bool := c.val ≤ 0x20
+def c0space (c : Char) : Bool := c.toNat ≤ 0x20
 
 def stripLead : List Char → List Char
   | [] => []
@@ -402,8 +402,8 @@ def pctDecode : List Char → List Char
 
 /-- forbidden domain code points -/
 def forbiddenDomain (c : Char) : Bool :=
-  c.val ≤ 0x20 || c == '#' || c == '/' || c == ':' || c == '<' || c == '>' || c == '?' || c == '@' ||
-  c == '[' || c == '\\' || c == ']' || c == '^' || c == '|' || c == '%' || c.val == 0x7f
+  c.toNat ≤ 0x20 || c == '#' || c == '/' || c == ':' || c == '<' || c == '>' || c == '?' || c == '@' ||
+  c == '[' || c == '\\' || c == ']' || c == '^' || c == '|' || c == '%' || c.toNat == 0x7f
 
 /-- the only characters the IPv6 parser accepts -/
 def ipv6Char (c : Char) : Bool := isHex c || c == ':' || c == '.'
